@@ -20,6 +20,7 @@ for d in sorted(glob.glob(prefix + "C*/refactor*/patch.diff")) + sorted(glob.glo
     if os.path.getsize(d) == 0: continue
     items.append((prop, os.path.basename(os.path.dirname(d)), d))
 NW = 5
+REPO = os.environ.get("REPO", "/repo")   # tree the checks are run on (a scratch worktree while /repo is busy)
 buckets = [[] for _ in range(NW)]
 for i, it in enumerate(items): buckets[i % NW].append(it)
 def work(w):
@@ -47,13 +48,13 @@ for prop, name, patch in items:
     st = res[(prop, name)]
     if st != "suite ok":
         print(f"=== {prop} {name}: {st} (skipped)"); continue
-    rc, o = sh(f"git -C /repo apply {patch}")
+    rc, o = sh(f"git -C {REPO} apply {patch}")
     if rc != 0:
         print(f"=== {prop} {name}: does not apply to /repo"); continue
     try:
-        rc, out = sh("/verif/bin/pprofcheck -property all -no-evidence")
+        rc, out = sh(f"/verif/bin/pprofcheck -property all -no-evidence -repo {REPO}")
     finally:
-        sh("git -C /repo checkout -- .")
+        sh(f"git -C {REPO} checkout -- .")
     lines = [l.strip()[:420] for l in out.splitlines() if re.match(r"\s*(VIOLATION C|UNDECIDED)", l)]
     if "cannot analyse" in out: lines.append(out[:300])
     print(f"=== {prop} {name}: suite ok; checks: {'SILENT' if not lines else 'ALARM (' + str(len(lines)) + ')'}")
